@@ -38,6 +38,7 @@ func c08(c *Ctx) {
 	c08R11(c)
 	c08R12(c)
 	c08R13(c)
+	c08R14(c)
 }
 
 func c08R4(c *Ctx) {
@@ -1101,4 +1102,71 @@ func c08R13(c *Ctx) {
 			fmt.Sprintf("peer-controlled %v sizes an allocation without an upper bound; %s %v", f.Taint, guardsText(f.Fn, f.Ins), f.Via))
 	}
 	c.R.Ob(rule, "scope", len(scope) > 100 && sinks > 50, "-", "", fmt.Sprintf("%d functions, %d sinks examined, %d unbounded allocations", len(scope), sinks, n))
+}
+
+// c08R14: a pointer obtained together with an error that is thrown away.
+func c08R14(c *Ctx) {
+	rule := c.R.Rule("R14", "no use of a result whose error was discarded: in the peer-facing packages (p2p, the reactors) a call returning (pointer, error) whose error is never read must not have its pointer result dereferenced or passed on without a nil test — the parse of a peer-supplied string (NodeInfo.ListenAddr) fails exactly when the pointer is nil", 1)
+	n, bad := 0, 0
+	for _, rel := range []string{"gemmill/p2p", "gemmill/blockchain", "gemmill/mempool", "gemmill/consensus/pbft"} {
+		for _, fn := range c.P.FuncsOfPkg(rel) {
+			if fn.Blocks == nil {
+				continue
+			}
+			f := c.Fn(fn)
+			for _, ci := range f.Calls() {
+				call, ok := ci.(*ssa.Call)
+				if !ok {
+					continue
+				}
+				tup, ok := call.Type().(*types.Tuple)
+				if !ok || tup.Len() != 2 || tup.At(1).Type().String() != "error" {
+					continue
+				}
+				if _, isPtr := tup.At(0).Type().Underlying().(*types.Pointer); !isPtr {
+					continue
+				}
+				callee := call.Call.StaticCallee()
+				if callee == nil || !strings.HasPrefix(core.FuncName(callee), core.Mod+"/gemmill/") {
+					continue
+				}
+				n++
+				var val *ssa.Extract
+				errRead := false
+				for _, r := range *call.Referrers() {
+					if ex, ok := r.(*ssa.Extract); ok {
+						if ex.Index == 1 && len(*ex.Referrers()) > 0 {
+							errRead = true
+						}
+						if ex.Index == 0 {
+							val = ex
+						}
+					}
+				}
+				if errRead || val == nil || len(*val.Referrers()) == 0 {
+					continue
+				}
+				// the pointer is used although the error was dropped: every use must be under `ptr != nil`
+				ve := exprOf(val)
+				unguarded := ""
+				for _, r := range *val.Referrers() {
+					if _, isIf := r.(*ssa.If); isIf {
+						continue
+					}
+					if bo, isBo := r.(*ssa.BinOp); isBo && (cfgx.IsNilConst(bo.X) || cfgx.IsNilConst(bo.Y)) {
+						continue
+					}
+					if !f.HasGuard(r, eqs("("+ve+" != nil)")) {
+						unguarded = c.Pos(r)
+					}
+				}
+				if unguarded != "" {
+					bad++
+				}
+				c.R.Ob(rule, "discarded-error:"+core.Short(core.FuncName(fn))+":"+core.Short(core.FuncName(callee)), unguarded == "", c.Pos(call), core.FuncName(fn),
+					"the error of "+callee.Name()+" is discarded and its pointer result is used at "+unguarded+" without a nil test")
+			}
+		}
+	}
+	c.R.Ob(rule, "calls-examined", n >= 10, "-", "", fmt.Sprintf("%d calls returning (pointer, error) examined, %d use the pointer after dropping the error", n, bad))
 }
